@@ -284,6 +284,8 @@ def verify_function(repo, ctab, spec):
 
     def run():
         try:
+            from . import ops as _ops
+            _ops.STRIP_RICH = bool(spec.hints.get('strip_rich')) if isinstance(spec.hints, dict) else False
             _verify(repo, ctab, spec, res)
         except Unsupported as ex:
             res.error = 'outside the verified subset: %s' % (ex,)
